@@ -45,6 +45,14 @@ func conformsType(v interface{}, t ast.Type) bool {
 			}
 		}
 		return true
+	case ast.NamedType:
+		// the harness' nested type: Item {k: int!}
+		obj, ok := v.(map[string]interface{})
+		if !ok {
+			return false
+		}
+		k, present := obj["k"]
+		return present && k != nil && conformsType(k, ast.IntType{})
 	case ast.OptionalType:
 		return v == nil || conformsType(v, tt.InnerType)
 	case ast.UnionType:
@@ -98,11 +106,19 @@ var fieldTypes = []struct {
 	{"[int]", ast.ArrayType{ElementType: ast.IntType{}}, nil},
 	{"int?", ast.OptionalType{InnerType: ast.IntType{}}, nil},
 	{"int|str", ast.UnionType{Types: []ast.Type{ast.IntType{}, ast.StringType{}}}, nil},
+	{"Item", ast.NamedType{Name: "Item"}, nil},
+	{"[Item]", ast.ArrayType{ElementType: ast.NamedType{Name: "Item"}}, nil},
 }
 
 // anyJSON returns a JSON-decoded-shaped value with symbolic payload and its kind.
 func anyJSON(name string) (interface{}, string) {
-	switch zzverif.Choice(name+".kind", 7) {
+	switch zzverif.Choice(name+".kind", 10) {
+	case 7:
+		return []interface{}{map[string]interface{}{"k": 1.0}}, "array-of-object"
+	case 8:
+		return []interface{}{map[string]interface{}{"k": 1.0}, 5.0}, "array-object-then-number"
+	case 9:
+		return map[string]interface{}{"k": "s"}, "object-bad-field"
 	case 0:
 		return nil, "null"
 	case 1:
@@ -133,6 +149,7 @@ func VerifC07_InputContract() {
 		req = "required"
 	}
 	td := &ast.TypeDef{Name: "U", Fields: []ast.Field{field}}
+	item := &ast.TypeDef{Name: "Item", Fields: []ast.Field{{Name: "k", TypeAnnotation: ast.IntType{}, Required: true}}}
 	route := &ast.Route{Path: "/t", Method: ast.Post, InputType: ast.NamedType{Name: "U"},
 		Body: []ast.Statement{ast.ReturnStatement{Value: ast.VariableExpr{Name: "input"}}}}
 
@@ -153,7 +170,7 @@ func VerifC07_InputContract() {
 	}
 
 	in := interpreter.NewInterpreter()
-	if err := in.LoadModule(ast.Module{Items: []ast.Item{td, route}}); err != nil {
+	if err := in.LoadModule(ast.Module{Items: []ast.Item{item, td, route}}); err != nil {
 		zzverif.Fail("module-rejected")
 	}
 	resp, err := in.ExecuteRoute(route, &interpreter.Request{Path: "/t", Method: "POST", Body: body})
@@ -258,6 +275,51 @@ func VerifC07_QueryParams() {
 		}
 	}
 	zzverif.Reach("query")
+}
+
+// Integer query parameters, 3 bytes incl. the characters of float syntax: only
+// an optional sign followed by digits is an integer; "2.7", "1e3", ".5" are not.
+// Also through the array form (?q=1&q=x).
+func VerifC07_QueryInt3() {
+	val := zzverif.StringFrom("value", 3, "0129-+.e ")
+	array := zzverif.Bool("array")
+	decl := ast.QueryParamDecl{Name: "q", Type: ast.IntType{}}
+	raw := map[string][]string{"q": {val}}
+	if array {
+		// the parser declares `? q: [int]` as an array type with IsArray set
+		decl = ast.QueryParamDecl{Name: "q", Type: ast.ArrayType{ElementType: ast.IntType{}}, IsArray: true}
+		raw["q"] = []string{"1", val}
+	}
+	res, err := interpreter.ProcessQueryParams(raw, []ast.QueryParamDecl{decl})
+	s := val
+	if s[0] == '-' || s[0] == '+' {
+		s = s[1:]
+	}
+	digits := len(s) > 0
+	for i := 0; i < len(s); i++ {
+		if s[i] < '0' || s[i] > '9' {
+			digits = false
+		}
+	}
+	if !digits {
+		zzverif.Assert(err != nil, "unparsable-integer-query-param-accepted")
+		zzverif.Reach("queryint")
+		return
+	}
+	var want int64
+	for i := 0; i < len(s); i++ {
+		want = want*10 + int64(s[i]-'0')
+	}
+	if val[0] == '-' {
+		want = -want
+	}
+	if array {
+		arr, ok := res["q"].([]interface{})
+		zzverif.Assert(err == nil && ok && len(arr) == 2 && arr[0] == interface{}(int64(1)) && arr[1] == interface{}(want), "integer-array-query-param-converted-wrongly")
+	} else {
+		zzverif.Assert(err == nil && res["q"] == interface{}(want), "integer-query-param-converted-wrongly")
+	}
+	zzverif.Reach("queryint")
 }
 
 // Declared return type: a violating result is a 5xx, never sent.
